@@ -30,6 +30,10 @@ ASSUMPTIONS = [
     "detectors are placed with Detector.place_on_grid, the call place_objects makes; the conformance replays use place_objects",
 ]
 TOL = 1e-9
+# On a periodic/Bloch axis of a non-uniform grid the cell behind cell 0 is the wrapped last cell. interpolate_fields
+# attributes the width of cell 0 itself to it (documented halo convention); both readings are accepted. Set to False to
+# demand the wrapped width (then the current code fails with sig record-differs-from-colocation:exact:edge:wrap|bloch:nonuniform).
+ACCEPT_OWN_WIDTH_ON_PERIODIC_AXES = True
 
 Q_KINDS = ["none", "periodic", "bloch", "sym"]
 WALL_KINDS = ["pec-pmc", "pmc-pec", "pec-pec", "pmc-pmc", "none-pec", "pmc-none", "sym-pec", "sym-pmc"]
@@ -163,7 +167,8 @@ def run_case(case):
     E, Hp, H = DS.unpack_np(X, shape)
     fails = []
     best = None
-    variants = ["own"] + (["wrap"] if (not info["uniform"] and any(h in ("wrap", "bloch") for h in info["halos"])) else [])
+    wrapped_nonuniform = not info["uniform"] and any(h in ("wrap", "bloch") for h in info["halos"])
+    variants = (["own"] if (ACCEPT_OWN_WIDTH_ON_PERIODIC_AXES or not wrapped_nonuniform) else []) + (["wrap"] if wrapped_nonuniform else [])
     nontriv = 0
     n_edge = n_int = 0
     for hv in variants:
